@@ -398,6 +398,111 @@ def d5_derivation(ctx):
     ctx.check(rule, 'input/openQCD.py:_read_flow_obs#flow-time', ok, 'selected flow time index', 'flow time selection differs')
 
 
+def returns_sorted(mod, f):
+    """path analysis: is the list returned by f numerically sorted on every return path?  parameters start unsorted.
+    returns list of (return stmt, variable) that may be unsorted"""
+    bad = []
+
+    def numeric_key(call):
+        k = kwarg(call, 'key')
+        return k is not None and ('int(' in unparse(k) or 'get_cnfg_number' in unparse(k))
+
+    def block(stmts, env):
+        for st in stmts:
+            if isinstance(st, ast.If):
+                a, b = dict(env), dict(env)
+                ra = block(st.body, a)
+                rb = block(st.orelse, b)
+                keys = set(a) | set(b)
+                env.clear()
+                for k in keys:
+                    va = a.get(k, False) if not ra else None
+                    vb = b.get(k, False) if not rb else None
+                    vals = [v for v in (va, vb) if v is not None]
+                    env[k] = all(vals) if vals else False
+                if ra and rb:
+                    return True
+                continue
+            if isinstance(st, (ast.For, ast.While)):
+                for c in walk(st):
+                    if isinstance(c, ast.Call) and isinstance(c.func, ast.Attribute) and c.func.attr in ('extend', 'append') and isinstance(c.func.value, ast.Name):
+                        env[c.func.value.id] = False
+                    if isinstance(c, ast.Assign) and isinstance(c.targets[0], ast.Name):
+                        env[c.targets[0].id] = False
+                continue
+            if isinstance(st, ast.Assign) and len(st.targets) == 1 and isinstance(st.targets[0], ast.Name):
+                v = st.value
+                t = st.targets[0].id
+                if isinstance(v, ast.Name):
+                    env[t] = env.get(v.id, False)
+                elif isinstance(v, ast.Call) and call_name(v) == 'sorted' and numeric_key(v):
+                    env[t] = True
+                elif isinstance(v, ast.Call) and call_name(v) == 'sort_names':
+                    env[t] = True
+                else:
+                    env[t] = False
+                continue
+            if isinstance(st, ast.Expr) and isinstance(st.value, ast.Call) and isinstance(st.value.func, ast.Attribute) and st.value.func.attr == 'sort' and isinstance(st.value.func.value, ast.Name):
+                env[st.value.func.value.id] = numeric_key(st.value)
+                continue
+            if isinstance(st, ast.Raise):
+                return True
+            if isinstance(st, ast.Return):
+                if isinstance(st.value, ast.Name) and not env.get(st.value.id, False):
+                    bad.append((st, st.value.id))
+                return True
+        return False
+    env = {a.arg: False for a in f.args.args}
+    block(f.body, env)
+    return bad
+
+
+def d6_sfcf_pairing(ctx):
+    """read_sfcf_multi sorts the configuration numbers of a replica on their own (rep_idl.sort()); the samples follow the order of the
+    file list, so the producer of that list must return it sorted by configuration number on every path"""
+    rule = 'C17-D1'
+    m = ctx.repo.mod('input.sfcf')
+    f = m.func('read_sfcf_multi')
+    ro = [x for x in reorder_statements(m, f) if x[0] == 'rep_idl']
+    key = 'input/sfcf.py:read_sfcf_multi#rep_idl.sort()'
+    if not ro:
+        ctx.holds(rule, key, 'configuration numbers are not reordered on their own')
+        return
+    prod = m.func('_find_files')
+    bad = returns_sorted(m, prod)
+    ctx.check(rule, key, not bad, 'the configuration numbers are sorted on their own, and the file list they were read from is returned sorted by configuration number on every path of _find_files',
+              'rep_idl is sorted on its own but _find_files may return `%s` unsorted (line %s): samples stay in the order of the given files while the configuration numbers are sorted' % (
+                  bad[0][1] if bad else '', bad[0][0].lineno if bad else ''), m.loc(ro[0][2]))
+
+
+RELABEL_GUARDS = {
+    # function -> components every guard of the thermalisation relabelling must contain (confirmed by reading)
+    'read_rwms': ['configlist[-1][0] > 1', 'diffmeas > 1'],
+    '_extract_flowed_energy_density': ["kwargs.get('assume_thermalization', True)", 'configlist[-1][0] > 1'],
+    '_read_flow_obs': ['configlist[-1][0] > 1'],
+}
+
+
+def d7_relabelling(ctx):
+    """stored configuration numbers are shifted (`item - offset`) only under the confirmed conditions: in ms1 files with measurement
+    spacing 1 the stored numbers are configuration numbers and must not be relabelled"""
+    rule = 'C17-D5'
+    m = ctx.repo.mod('input.openQCD')
+    for q, comps in RELABEL_GUARDS.items():
+        f = m.func(q)
+        sh = [s_ for s_ in statements(f) if isinstance(s_, ast.Assign) and unparse(s_.targets[0]) == 'configlist[-1]' and 'offset' in unparse(s_.value)]
+        key = 'input/openQCD.py:%s#relabelling-guard' % q
+        if len(sh) != 1:
+            ctx.unrec(rule, key, 'relabelling statement not found')
+            continue
+        g = ' and '.join(unparse(t) for t, pol in guards_of(m, sh[0], stop=f) if pol)
+        missing = [c for c in comps if c not in g]
+        ctx.check(rule, key, not missing, 'configuration numbers are shifted only when %s' % ' and '.join(comps),
+                  'the shift of the stored configuration numbers is no longer conditional on %s (guard: %s): numbers stated in the file are relabelled' % (missing, g), m.loc(sh[0]))
+        off = [s_ for s_ in statements(f) if isinstance(s_, ast.Assign) and unparse(s_.targets[0]) == 'offset']
+        ctx.check(rule, key + '-offset', len(off) == 1 and unparse(off[0].value) == 'configlist[-1][0] - 1', 'offset = first number - 1', 'offset = %s' % [unparse(o.value) for o in off])
+
+
 def run(ctx):
     ctx.rule('C17-D1', 'pairing discipline of names / samples / configuration lists')
     ctx.rule('C17-D2', 'directory listings are sorted numerically before positional use')
@@ -410,12 +515,16 @@ def run(ctx):
     ctx.guarded('C17-D3', 'readers@selection', d3_selection, ctx)
     ctx.guarded('C17-D4', 'readers@layouts', d4_layouts, ctx)
     ctx.guarded('C17-D5', 'readers@derivation', d5_derivation, ctx)
+    ctx.guarded('C17-D1', 'sfcf@pairing', d6_sfcf_pairing, ctx)
+    ctx.guarded('C17-D5', 'openQCD@relabelling', d7_relabelling, ctx)
 
 
 SELFTEST = [
     ('fix-reverted-rwms', 'pyerrors/input/openQCD.py', "        rep_names = names\n\n    print_err = 0", "        rep_names = names\n\n    rep_names = sort_names(rep_names)\n\n    print_err = 0", 'C17-D1'),
     ('fix-reverted-flow', 'pyerrors/input/openQCD.py', "        deltas.append(Q_top)\n\n    idl = [", "        deltas.append(Q_top)\n\n    rep_names = sort_names(rep_names)\n\n    idl = [", 'C17-D1'),
     ('fix-reverted-ms5', 'pyerrors/input/openQCD.py', "    names = [name for _, name in sorted(zip(files, names), key=lambda pair: pair[0])]\n", "    names = sorted(names)\n", 'C17-D1'),
+    ('sfcf-user-files-unsorted', 'pyerrors/input/sfcf.py', "        files.sort(key=lambda x: int(re.findall(r'\\d+', x)[-1]))", "        sub_ls = sorted(files, key=lambda x: int(re.findall(r'\\d+', x)[-1]))", 'C17-D1'),
+    ('relabel-guard-weakened', 'pyerrors/input/openQCD.py', "            if configlist[-1][0] > 1 and diffmeas > 1:", "            if configlist[-1][0] > 1:", 'C17-D5'),
     ('listing-unsorted', 'pyerrors/input/openQCD.py', "    files = sort_names(files)\n    return files", "    return files", 'C17-D2'),
     ('listing-lexicographic', 'pyerrors/input/misc.py', "        ls.sort(key=lambda x: int(re.findall(r'\\d+', x[len(prefix):])[0]))", "        ls.sort()", 'C17-D2'),
     ('hadrons-unsorted', 'pyerrors/input/hadrons.py', "    files.sort(key=get_cnfg_number)\n", "", 'C17-D2'),
